@@ -33,6 +33,8 @@ SongOK(sg) ==
 XmiWellFormed(f) == Len(f.songs) >= 1 /\ \A s \in DOMAIN f.songs : SongOK(f.songs[s])
 CarriesTempo(sg) == \E i \in DOMAIN sg.ev : sg.ev[i][2].k = "tempo" /\ XTick(sg.ev, i) = 0
 
+TempoUs(sg) == IF CarriesTempo(sg) THEN sg.ev[CHOOSE i \in DOMAIN sg.ev : sg.ev[i][2].k = "tempo"][2].us ELSE 0
+
 XKey(e) ==
   CASE e.k = "on"   -> <<9, e.ch, <<e.n, e.v>>>>
     [] e.k = "cc"   -> <<11, e.ch, <<e.n, e.v>>>>
